@@ -36,6 +36,7 @@
 //	c07.cache_hit_restore   wazevo/engine_cache.go getCompiledModule              per-module state restored after a file-cache hit: unconditional assignments, and those under a condition
 //	c16.dirfs_rename        sysfs/dirfs_supported.go dirFS.Rename                  the statements of the function
 //	c02.strict_opcodes      wazevo/ssa/instructions.go instructionSideEffects      the opcodes classified sideEffectStrict (they end an instruction group), sorted
+//	c10.table_range         descriptor/table.go Table.Range                         loop headers and what each skip condition does (continue / break / return)
 package main
 
 import (
@@ -718,6 +719,30 @@ func main() {
 		}
 		sort.Strings(strict)
 		add("c02.strict_opcodes", strings.Join(strict, " "))
+	}
+	{
+		rg := fn(*repo, "internal/descriptor/table.go", "Range", "Table")
+		var ev []string
+		ast.Inspect(rg.Body, func(n ast.Node) bool {
+			switch x := n.(type) {
+			case *ast.RangeStmt:
+				ev = append(ev, "range "+src(x.X))
+			case *ast.ForStmt:
+				ev = append(ev, "for "+src(x.Init)+"; "+src(x.Cond)+"; "+src(x.Post))
+			case *ast.IfStmt:
+				act := "?"
+				if len(x.Body.List) == 1 {
+					act = src(x.Body.List[0])
+				}
+				c := src(x.Cond)
+				if x.Init != nil {
+					c = src(x.Init) + "; " + c
+				}
+				ev = append(ev, "if "+c+" -> "+act)
+			}
+			return true
+		})
+		add("c10.table_range", strings.Join(ev, " ;; "))
 	}
 	add("c09.compiled_fields", "wazevo.compiledModule: "+structFields(*repo, "internal/engine/wazevo/engine.go", "compiledModule")+
 		" ;; interpreter.compiledFunction: "+structFields(*repo, "internal/engine/interpreter/interpreter.go", "compiledFunction"))
